@@ -44,6 +44,7 @@ type FileRunner struct {
 	written []writtenRec
 	staged  []writtenRec
 	damaged bool
+	saved   []byte
 	Oracle  []string
 	lastLog int64
 }
@@ -58,6 +59,11 @@ type writtenRec struct {
 
 func (r *FileRunner) fail(format string, a ...interface{}) {
 	r.Oracle = append(r.Oracle, fmt.Sprintf(format, a...))
+}
+
+// fail12 records a C12 finding (the default property of the file layer is C11).
+func (r *FileRunner) fail12(format string, a ...interface{}) {
+	r.Oracle = append(r.Oracle, "@C12 "+fmt.Sprintf(format, a...))
 }
 
 func (r *FileRunner) path() string { return datafile.GetFileName(r.Dir, r.fid, r.suffix) }
@@ -90,6 +96,7 @@ func (r *FileRunner) Exec(f []string) (res string) {
 	defer func() {
 		if e := recover(); e != nil {
 			res = "panic"
+			r.fail12("%s panicked: %v", strings.Join(f[1:], " "), e)
 			if r.Verbose {
 				res = fmt.Sprintf("panic # %v", e)
 			}
@@ -200,6 +207,21 @@ func (r *FileRunner) Exec(f []string) (res string) {
 					break
 				}
 				sb.WriteString(recCanon(rec, p))
+				if r.damaged && r.suffix == datafile.DataFileSuffix {
+					// C12: whatever a scan of a damaged file returns was written, at that very position
+					found := false
+					for _, w := range r.written {
+						if w.bid == p.BlockID && w.off == p.Offset {
+							found = true
+							if w.typ != rec.Type || !bytes.Equal(w.key, rec.Key) || !bytes.Equal(w.val, rec.Value) || w.batch != rec.BatchID {
+								r.fail12("scan of the damaged file returned at (%d,%d) a record that differs from the one written there (key %s, %d value bytes)", p.BlockID, p.Offset, Obs(rec.Key), len(rec.Value))
+							}
+						}
+					}
+					if !found && len(r.written) > 0 {
+						r.fail12("scan of the damaged file returned a record at (%d,%d) where none was written (key %s)", p.BlockID, p.Offset, Obs(rec.Key))
+					}
+				}
 				if !r.damaged && r.suffix == datafile.DataFileSuffix {
 					if n >= len(r.written) {
 						r.fail("scan returned more records than were written (%d)", len(r.written))
@@ -248,10 +270,38 @@ func (r *FileRunner) Exec(f []string) (res string) {
 				}
 			}
 		}
+		if r.damaged && err == nil {
+			ok := false
+			for _, w := range r.written {
+				if w.bid == p.BlockID && w.off == p.Offset && bytes.Equal(v, w.val) {
+					ok = true
+				}
+			}
+			if !ok && len(r.written) > 0 {
+				r.fail12("random read of the damaged file at (%d,%d) returned %d bytes that were not written there", p.BlockID, p.Offset, len(v))
+			}
+		}
 		if err != nil {
 			return "err " + ErrName(err)
 		}
 		return "ok " + Obs(v)
+	case "save":
+		b, err := os.ReadFile(r.path())
+		if err != nil {
+			return "err save"
+		}
+		r.saved = b
+		return ""
+	case "restore":
+		r.Close()
+		if err := os.WriteFile(r.path(), r.saved, 0644); err != nil {
+			return "err write"
+		}
+		if err := r.reopen(); err != nil {
+			return "err " + ErrName(err)
+		}
+		r.damaged = false
+		return fmt.Sprintf("%d", r.df.Size())
 	case "load":
 		r.damaged = true
 		b, _ := ParseTok(f[2])
@@ -266,11 +316,11 @@ func (r *FileRunner) Exec(f []string) (res string) {
 	case "flip":
 		r.damaged = true
 		off, mask := atoi(f[2]), atoi(f[3])
-		r.Close()
 		b, err := os.ReadFile(r.path())
 		if err != nil || off >= len(b) {
 			return "err flip"
 		}
+		r.Close()
 		b[off] ^= byte(mask)
 		_ = os.WriteFile(r.path(), b, 0644)
 		if err := r.reopen(); err != nil {
@@ -303,7 +353,11 @@ func RunFileScript(lines []string, w *bufio.Writer, verbose bool) error {
 	scen := "?"
 	emit := func() {
 		for _, o := range r.Oracle {
-			fmt.Fprintf(w, "X C11 scenario=%s %s\n", scen, o)
+			if strings.HasPrefix(o, "@C12 ") {
+				fmt.Fprintf(w, "X C12 scenario=%s %s\n", scen, o[5:])
+			} else {
+				fmt.Fprintf(w, "X C11 scenario=%s %s\n", scen, o)
+			}
 		}
 		r.Oracle = nil
 	}
